@@ -496,7 +496,8 @@ def parse_short(text):
     text = ANSI.sub("", text)
     labels = [m.group(1) for m in LINE.finditer(text)]
     if "\nStatistics :" not in "\n" + text:
-        return {"labels": labels, "summary": None, "none_found": "No test found or no matching test in the report" in text}
+        return {"labels": labels, "summary": None, "none_found": "No test found or no matching test in the report" in text,
+                "duration_known": False}
     tail = text[text.rindex("Statistics :"):]
     out = {"tests": None, "successes": None, "failures": None, "skipped": None, "disabled": None}
     for key, label in (("tests", "Tests"), ("successes", "Successes"), ("failures", "Failures"), ("skipped", "Skipped"),
@@ -504,7 +505,7 @@ def parse_short(text):
         m = re.search(r"\* %s: (\d+)" % label, tail)
         if m:
             out[key] = int(m.group(1))
-    return {"labels": labels, "summary": out, "none_found": False}
+    return {"labels": labels, "summary": out, "none_found": False, "duration_known": "* Duration: n/a" not in tail}
 
 
 def run_captured(fn):
@@ -582,7 +583,7 @@ class ShortStream(C.Stream):
         direct = run_captured(lambda: print_report_as_test_run(rep, flt))
         try:
             st = ReportStats.from_suites(rep.get_suites(), rep.parallelized)
-            fs = dict(st.tests_nb_by_status, total=st.tests_nb, enabled=st.tests_enabled_nb)
+            fs = dict(st.tests_nb_by_status, total=st.tests_nb, enabled=st.tests_enabled_nb, duration_known=st.duration is not None)
         except (TypeError, IndexError) as e:
             fs = {"err": type(e).__name__}
         # the same through the CLI entry point on a saved report file
@@ -662,17 +663,21 @@ class ShortStream(C.Stream):
         if "error" in ans:
             return "model error: " + ans["error"]
         m, o = ans["short"], obs["direct"]
-        if "err" in m or "err" in o:
-            if m.get("err") != o.get("err"):
-                return f"short report: real {o.get('err', 'ok')} vs model {m.get('err', 'ok')}"
-        else:
-            ml = [LABEL.get(st, "--") for _, st in m["lines"]]
-            if ml != o["labels"]:
-                return f"short report lines: real {o['labels']} vs model {ml}"
-            if m["summary"] != o["summary"]:
-                return f"short report summary: real {o['summary']} vs model {m['summary']}"
-        if ans["from_suites"] != obs["from_suites"]:
-            return f"from_suites: real {obs['from_suites']} vs model {ans['from_suites']}"
+        if "err" in o:
+            return f"short report: real raised {o['err']}, the model (repaired code, D34) never raises"
+        ml = [LABEL.get(st, "--") for _, st in m["lines"]]
+        if ml != o["labels"]:
+            return f"short report lines: real {o['labels']} vs model {ml}"
+        if m["summary"] != o["summary"]:
+            return f"short report summary: real {o['summary']} vs model {m['summary']}"
+        if m["duration_known"] != o["duration_known"]:
+            return f"short report duration known: real {o['duration_known']} vs model {m['duration_known']}"
+        fs = obs["from_suites"]
+        if "err" in fs:
+            return f"from_suites: real raised {fs['err']}, the model (repaired code, D34) never raises"
+        mfs = dict(ans["from_suites"]["stats"], duration_known=ans["from_suites"]["duration_known"])
+        if mfs != fs:
+            return f"from_suites: real {fs} vs model {mfs}"
         return None
 
     def nontrivial(self, case, obs):
@@ -735,12 +740,23 @@ def _short_min(args):
     return c
 
 
+def _d34_min():
+    """minimised witness of D34 (fixed): a sequential run saved while its only test is running; the unrepaired
+    ReportStats.from_suites(report.get_suites(), False) raised TypeError here"""
+    c = _short_case(1, [])
+    shop = c["report"]["suites"][0]
+    shop["tests"] = [shop["tests"][2]]
+    c["report"]["suites"] = [shop]
+    return c
+
+
 ShortStream.corpus = [
+    _d34_min(),
     _short_min(["--path", "shop"]),
     _short_min([]),
     _short_case(2, ["--path", "shop"]),            # parallelized: the in-progress test is displayed and must be counted (seeded/C20-6)
     _short_case(2, ["--enabled"]),
-    _short_case(1, ["--path", "shop"]),            # sequential: D34, from_suites raises on the in-progress last result
+    _short_case(1, ["--path", "shop"]),            # sequential: the witness of D34 (from_suites raised on the in-progress last result)
     _short_case(1, ["--passed"]),                  # sequential, the filter drops the in-progress test: fine
     _short_case(1, []),
 ]
@@ -770,7 +786,8 @@ def tables(ctx):
                 suite.add_test(t)
             try:
                 stats = ReportStats.from_suites([suite], par)
-                out = "FsOutcome.ok %d %d" % (stats.tests_nb, stats.tests_nb_by_status["passed"])
+                out = "FsOutcome.ok %d %d %s" % (stats.tests_nb, stats.tests_nb_by_status["passed"],
+                                                 "true" if stats.duration is not None else "false")
             except TypeError:
                 out = "FsOutcome.typeError"
             except IndexError:
